@@ -26,7 +26,7 @@ class C36(Prop):
         "store (state carried across every release/reload). Non-trivial = at least one release followed by a reload that continued the run."
     )
     assumptions = [
-        "in-process stack only: the DBOS idle-release decorator needs the DBOS engine and Postgres, neither of which can be installed here (see DESIGN.md 4.1)",
+        "three cases in four run the in-process stack; one in four runs the real DBOSIdleReleaseDecorator over an EMULATED DBOS base (vlib/dbos_idle.py: what is emulated and which regions are excluded is listed there and in DESIGN.md 8.6); the DBOS engine, Postgres and the SQL lifecycle locks are not run",
         "release/reload instants are observed by polling the idle-release decorator's active-run set every 0.25 virtual seconds; gaps within 0.75 s of the idle timeout are not judged",
     ]
     budgets = {"quick": 350, "thorough": 4000}
@@ -34,6 +34,10 @@ class C36(Prop):
 
     def setup(self):
         srv.M()
+        from .. import dbos_idle
+
+        dbos_idle.setup()
+        self.dbos = dbos_idle
 
     def strategy(self, tier):
         @st.composite
@@ -55,10 +59,16 @@ class C36(Prop):
                 "ties": draw(st.lists(st.integers(0, 7), max_size=4)),
             }
 
-        return case()
+        from .. import dbos_idle
+
+        return st.one_of(case(), case(), case(), dbos_idle.strategy(tier).map(lambda c: {"dbos": c}))
 
     def run_case(self, case):
         case = json.loads(json.dumps(case))
+        if "dbos" in case:
+            r = self.dbos.run_case(case["dbos"])
+            r.classes = ["dbos_decorator"] + ["dbos_" + c for c in r.classes]
+            return r
         r = CaseResult()
         ge = genwf.M()["ge"]
         I = case["idle_timeout"]
@@ -172,5 +182,11 @@ class C36(Prop):
         r.sample = {"case": case, "released": [x["t"] for x in rel][:4], "reloaded": obs["reloaded"][:4], "status": row.get("status")}
         return r
 
+
+# the DBOS half's statement of what it generates, checks, emulates and excludes belongs to this check's rule / assumptions (evidence)
+from .. import dbos_idle as _dbos_idle  # noqa: E402
+
+C36.rule = C36.rule + " DBOS HALF (one case in four): " + _dbos_idle.RULE
+C36.assumptions = list(C36.assumptions) + ["DBOS half: " + a for a in _dbos_idle.ASSUMPTIONS]
 
 PROP = C36
